@@ -1,3 +1,91 @@
+(* C14 -- a server grants authentication only with its own approval and valid proof.
+   Statements only; every proof is `exact <lemma of Proofs/C14_proofs.v>`.
+   Model: coq/Model/C14.v (server side of auth_handler.py after the repair
+   fixes/C14-gssapi-callback-result.diff). *)
 From PV Require Import Bytes C39 C14 C14_proofs.
-Theorem C14_tmp : init = init. Proof. exact placeholder. Qed.
-Print Assumptions C14_tmp.
+Open Scope Z_scope.
+
+(* In every step of the server's auth handler, from every state and for every oracle:
+   if USERAUTH_SUCCESS is sent, or the authenticated flag goes up, then the credential callback
+   that speaks for this message's method was invoked in this step for the pinned username
+   (= the request's username) and returned AUTH_SUCCESSFUL; for publickey the request carried a
+   signature that verifies over THIS session's blob (session id, username, service, algorithm,
+   key).  SUCCESS on the wire and the flag always go together. *)
+Theorem C14_success_needs_approval :
+  forall sig_ok sid st m e st' outs,
+    auth_step sig_ok sid st m e = (st', outs) ->
+    In OSuccess outs \/ (a_authed st = false /\ a_authed st' = true) ->
+    (e_res e = RSuccess /\
+     exists k, In (OCb k (a_user st') RSuccess) outs /\ cb_for m k = true /\
+       (k = CbPublickey -> exists u s alg kb sg blob,
+           m = Msg50 u s (BPublickey true alg kb sg) /\ e_keyok e = true /\
+           session_blob sid u s alg (e_bits e) = Ok blob /\ sig_ok (e_bits e) blob sg = true)) /\
+    (forall u s b, m = Msg50 u s b -> a_user st' = Some u) /\
+    In OSuccess outs /\ a_authed st' = true.
+Proof. exact success_needs_approval. Qed.
+Print Assumptions C14_success_needs_approval.
+
+(* over a whole connection (any request list): an authenticated server sent SUCCESS and some
+   credential callback answered AUTH_SUCCESSFUL *)
+Theorem C14_authenticated_history :
+  forall sig_ok sid steps st st' outs,
+    run sig_ok sid st steps = (st', outs) ->
+    a_authed st = false -> a_authed st' = true ->
+    In OSuccess outs /\ exists k u, In (OCb k u RSuccess) outs.
+Proof. exact run_authed_needs_approval. Qed.
+Print Assumptions C14_authenticated_history.
+
+(* probing a key without a signature never authenticates *)
+Theorem C14_probe_never_auths :
+  forall sig_ok sid st u s alg kb sg e st' outs,
+    auth_step sig_ok sid st (Msg50 u s (BPublickey false alg kb sg)) e = (st', outs) ->
+    a_authed st' = a_authed st /\ ~ In OSuccess outs.
+Proof. exact probe_never_auths. Qed.
+Print Assumptions C14_probe_never_auths.
+
+(* the signed blob determines session id, username, service, algorithm and key (from C39_injective) *)
+Theorem C14_blob_injective :
+  forall sid u s a k sid' u' s' a' k' b,
+    bytes_ok sid = true -> bytes_ok u = true -> bytes_ok s = true -> bytes_ok a = true ->
+    bytes_ok k = true ->
+    bytes_ok sid' = true -> bytes_ok u' = true -> bytes_ok s' = true -> bytes_ok a' = true ->
+    bytes_ok k' = true ->
+    session_blob sid u s a k = Ok b -> session_blob sid' u' s' a' k' = Ok b ->
+    sid = sid' /\ u = u' /\ s = s' /\ a = a' /\ k = k'.
+Proof. exact blob_injective. Qed.
+Print Assumptions C14_blob_injective.
+
+(* a signature that verifies for (sid1,u1,s1,a1) under a key, replayed in a session / request whose
+   session id, username, service or algorithm differs, never authenticates -- under the symbolic
+   signature premise that a signature verifies for at most one message per key *)
+Theorem C14_replay_never_auths :
+  forall (sig_ok : list Z -> list Z -> list Z -> bool),
+    (forall k b1 b2 sg, sig_ok k b1 sg = true -> sig_ok k b2 sg = true -> b1 = b2) ->
+  forall sid1 u1 s1 a1 sid2 u2 s2 a2 bits kb sg b1 st e st' outs,
+    bytes_ok sid1 = true -> bytes_ok u1 = true -> bytes_ok s1 = true -> bytes_ok a1 = true ->
+    bytes_ok sid2 = true -> bytes_ok u2 = true -> bytes_ok s2 = true -> bytes_ok a2 = true ->
+    bytes_ok bits = true ->
+    session_blob sid1 u1 s1 a1 bits = Ok b1 -> sig_ok bits b1 sg = true ->
+    (sid1, u1, s1, a1) <> (sid2, u2, s2, a2) ->
+    e_bits e = bits -> a_authed st = false ->
+    auth_step sig_ok sid2 st (Msg50 u2 s2 (BPublickey true a2 kb sg)) e = (st', outs) ->
+    ~ In OSuccess outs /\ a_authed st' = false.
+Proof. exact replay_never_auths. Qed.
+Print Assumptions C14_replay_never_auths.
+
+(* non-vacuity: a signed publickey request with an approving callback and a verifying signature
+   does authenticate (toy signature scheme), and the gssapi paths do so only when approved *)
+Example C14_example_success :
+  let sid := [1;2;3] in let bits := [75;107] in
+  exists blob, session_blob sid [97] s_connection [116] bits = Ok blob /\
+  let e := MkEnv RSuccess false true bits true 1 true false false in
+  let '(st', outs) := auth_step toy_sig_ok sid init
+                        (Msg50 [97] s_connection (BPublickey true [116] [107] (toy_mac bits blob))) e in
+  a_authed st' = true /\ In OSuccess outs.
+Proof. eexists. split; [vm_compute; reflexivity|]. vm_compute. split; [reflexivity|tauto]. Qed.
+
+Example C14_example_gss_rejected :
+  let e := MkEnv RFailed true false [] true 2 true true false in
+  let '(st', outs) := auth_step toy_sig_ok [] init (Msg50 [97] s_connection BGssKeyex) e in
+  a_authed st' = false /\ In (OFailure false) outs /\ In (OCb CbGssKeyex (Some [97]) RFailed) outs.
+Proof. vm_compute. repeat split; tauto. Qed.
